@@ -15,7 +15,7 @@ import math
 import sys
 
 from . import c16, common
-from .c16 import Registry, enc_float, enc_text, enc_Z, fspec, ispec, sspec, to_py, to_wire
+from .c16 import Registry, enc_float, enc_text, enc_Z, fspec, ispec, rp, sspec, to_py, to_wire
 from .common import Check, Model
 
 SCALARS = c16.SCALARS
@@ -25,7 +25,12 @@ ASSUMPTIONS = [
     "C15 model: Types/Coerce.v (coerce_input_value, coerce_input_literal, coerce_default_value, "
     "validate_input_value_impl, validate_input_literal_impl, value_to_literal, coerce_variable_values) over the five "
     "built-in scalars, enums and (recursive, OneOf) input objects with literal defaults, as produced by build_schema",
-    "not modelled: custom scalars, fragment variables, out_name/out_type, max_errors, hide_suggestions, one-shot "
+    "out_name (graphql-core extension) is set on ~30% of the generated input fields, OneOf fields included; it renames "
+    "the keys of coerced dicts, the harness undoes the renaming (suffix _o) before conformance and comparison with the "
+    "model, whose results are keyed by field name; the out_name lookups inside the coercers are thereby exercised",
+    "non-dict Mappings (types.MappingProxyType) occur as values (6% of the generated input-object values): opaque "
+    "objects in the model - rejected by coercion, reported by validation; value_to_literal is not compared for them",
+    "not modelled: custom scalars, fragment variables, out_type, max_errors, hide_suggestions, one-shot "
     "iterators as values (stateful; see DESIGN.md C15 residual), dict keys that are not str",
     "oracles supplied per case from CPython: float(s) of every Int/Float literal text, str(x) of every float in a "
     "value, sys.get_int_max_str_digits()",
@@ -426,6 +431,29 @@ def schema_sdl(desc):
     return "\n".join(out)
 
 
+OUT_SUFFIX = "_o"
+
+
+def build_impl_schema(desc):
+    """build_schema of the SDL, then the graphql-core extension `out_name` on the fields listed in desc["out"]:
+    the coerced dict is keyed by <field>_o instead of <field> (no generated field name ends in _o)."""
+    from graphql import build_schema
+    schema = build_schema(schema_sdl(desc))
+    for tn, fn in desc.get("out", []):
+        schema.type_map[tn].fields[fn].out_name = fn + OUT_SUFFIX
+    return schema
+
+
+def unrename(x):
+    """undo out_name on a coerced result (the model keys results by field name)."""
+    if isinstance(x, dict):
+        return {(k[:-len(OUT_SUFFIX)] if isinstance(k, str) and k.endswith(OUT_SUFFIX) else k): unrename(v)
+                for k, v in x.items()}
+    if isinstance(x, list):
+        return [unrename(v) for v in x]
+    return x
+
+
 def impl_type(schema, t):
     from graphql import GraphQLList, GraphQLNonNull
     if t[0] == "n":
@@ -472,6 +500,7 @@ class Gen:
         for _ in range(6):
             args.append(self.wrap(["n", r.choice(all_named)], 0))
         desc["args"] = args
+        desc["out"] = [[tn, f[0]] for tn, _, fields in desc["inputs"] for f in fields if r.random() < 0.3]
         return desc
 
     def wrap(self, t, depth):
@@ -648,6 +677,8 @@ class Gen:
                         seen.add(tuple(k))
                         uq.append([k, v])
                 r.shuffle(uq)
+                if r.random() < 0.06:
+                    return ["mapping", 5000 + r.randrange(100), uq]     # a Mapping that is not a dict
                 return ["dict", uq]
         return ["none"]
 
@@ -668,6 +699,16 @@ class Gen:
             return ["bool", r.randrange(2)]
         return r.choice([sspec(r.choice(["", "a", "1", "-12", "12\n", "007", "0", "-0", "1.5"])), ispec(r.randrange(-10 ** 6, 10 ** 6)),
                          fspec(float(r.randrange(-100, 100))), ispec(10 ** 30), fspec(1e22)])
+
+
+def has_mapping(spec):
+    if spec[0] == "mapping":
+        return True
+    if spec[0] in ("list", "tuple"):
+        return any(has_mapping(x) for x in spec[1])
+    if spec[0] == "dict":
+        return any(has_mapping(x) for _, x in spec[1])
+    return False
 
 
 def has_var(l):
@@ -759,7 +800,7 @@ class Runner:
         v = to_py(spec, self.reg)
         try:
             c = coerce_input_value(v, ty)
-            co = ("invalid",) if c is Undefined else ("good", c)
+            co = ("invalid",) if c is Undefined else ("good", unrename(c))
             c2 = coerce_input_value(to_py(spec, self.reg), ty)   # second run: memoised defaults
             s1, s2 = py_to_spec(c, self.reg), py_to_spec(c2, self.reg)
             if s1 is not None and s2 is not None and canon(s1) != canon(s2):
@@ -827,8 +868,8 @@ class Runner:
                                  dict(rep, relation="coercion fails iff validation reports", impl=[co[0], va[1]]))
                     continue
                 if co[0] == "good" and not conforms(desc, t, co[1]):
-                    ck.violation(rk, f"{type_sdl(t)} <- {short(spec)}: coerced result {co[1]!r:.100} does not conform to the type",
-                                 dict(rep, relation="result conforms to the type", impl=repr(co[1])[:300]))
+                    ck.violation(rk, f"{type_sdl(t)} <- {short(spec)}: coerced result {rp(co[1], 100)} does not conform to the type",
+                                 dict(rep, relation="result conforms to the type", impl=rp(co[1], 300)))
                     continue
                 if co[0] == "good":
                     if li[0] != "good":
@@ -836,33 +877,37 @@ class Runner:
                                      dict(rep, relation="accepted value has a literal", impl=list(li)))
                         continue
                     try:
-                        back = coerce_input_literal(lit_to_ast(li[1]), impl_type(schema, t))
+                        back = unrename(coerce_input_literal(lit_to_ast(li[1]), impl_type(schema, t)))
                     except Exception as e:  # noqa: BLE001
                         back = e
                     sb = None if back is Undefined or isinstance(back, Exception) else py_to_spec(back)
                     if sb is None or canon(sb) != canon(py_to_spec(co[1])):
-                        ck.violation(rk, f"{type_sdl(t)} <- {short(spec)}: coerced {co[1]!r:.80}, but its literal {short(li[1])} "
-                                         f"coerces to {back!r:.80}",
-                                     dict(rep, relation="value -> literal -> coerce round trip", impl=repr(back)[:300]))
+                        ck.violation(rk, f"{type_sdl(t)} <- {short(spec)}: coerced {rp(co[1], 80)}, but its literal {short(li[1])} "
+                                         f"coerces to {rp(back, 80)}",
+                                     dict(rep, relation="value -> literal -> coerce round trip", impl=rp(back, 300)))
                         continue
                     second.append((t, li[1], co[1], rk, rep))
             # ---- correspondence
             i_co = (co[0], canon(py_to_spec(co[1]) or ["undef"])) if co[0] == "good" else co
             w_co = (m_co[0], canon(m_co[1])) if m_co[0] == "good" else m_co
             if i_co != w_co:
-                ck.violation(rk, f"{type_sdl(t)} <- {short(spec)}: coerce_input_value gives {co!r:.120}, model {m_co!r:.120}",
-                             dict(rep, relation="coerce_input_value impl = model", impl=repr(co)[:300], model=repr(m_co)[:300]))
+                ck.violation(rk, f"{type_sdl(t)} <- {short(spec)}: coerce_input_value gives {rp(co, 120)}, model {rp(m_co, 120)}",
+                             dict(rep, relation="coerce_input_value impl = model", impl=rp(co, 300), model=rp(m_co, 300)))
                 continue
             if pathset(va[1]) != pathset(m_va):
-                ck.violation(rk, f"{type_sdl(t)} <- {short(spec)}: validate_input_value error paths {sorted(pathset(va[1]))!r:.120}, "
-                                 f"model {sorted(pathset(m_va))!r:.120}",
+                ck.violation(rk, f"{type_sdl(t)} <- {short(spec)}: validate_input_value error paths {rp(sorted(pathset(va[1])), 120)}, "
+                                 f"model {rp(sorted(pathset(m_va)), 120)}",
                              dict(rep, relation="validation error paths impl = model", impl=va[1], model=m_va))
+                continue
+            if has_mapping(spec):
+                # value_to_literal reads any Mapping as an object; the model keeps non-dict mappings opaque
+                ck.count("value_to_literal_not_compared_non_dict_mapping")
                 continue
             i_li = (li[0], canon_lit(li[1])) if li[0] == "good" else (("invalid",) if li[0] == "raised" else li)
             w_li = (m_li[0], canon_lit(m_li[1])) if m_li[0] == "good" else (("invalid",) if m_li[0] == "crash" else m_li)
             if i_li != w_li:
-                ck.violation(rk, f"{type_sdl(t)} <- {short(spec)}: value_to_literal gives {li!r:.120}, model {m_li!r:.120}",
-                             dict(rep, relation="value_to_literal impl = model", impl=repr(li)[:300], model=repr(m_li)[:300]))
+                ck.violation(rk, f"{type_sdl(t)} <- {short(spec)}: value_to_literal gives {rp(li, 120)}, model {rp(m_li, 120)}",
+                             dict(rep, relation="value_to_literal impl = model", impl=rp(li, 300), model=rp(m_li, 300)))
         # round trip through the model: the literal coerces (in the model) to the same value
         cases = []
         for t, l, _, _, _ in second:
@@ -878,8 +923,8 @@ class Runner:
             want = ("good", canon(py_to_spec(coerced)))
             got = (m_co[0], canon(m_co[1])) if m_co[0] == "good" else m_co
             if got != want:
-                ck.violation("rt:" + rk, f"round trip in the model: literal {short(l)} of type {type_sdl(t)} coerces to {m_co!r:.100}, "
-                                         f"implementation value {coerced!r:.100}",
+                ck.violation("rt:" + rk, f"round trip in the model: literal {short(l)} of type {type_sdl(t)} coerces to {rp(m_co, 100)}, "
+                                         f"implementation value {rp(coerced, 100)}",
                              dict(rep, relation="round trip (model of coerce_input_literal on the emitted literal)", lit=l))
         ck.count("round_trips", len(second))
 
@@ -900,6 +945,12 @@ class Runner:
             defs.append([name, t, dflt])
             if r.random() < 0.7:
                 inputs.append([cps(name), gen.value(desc, t, 2, valid=r.random() < 0.9)])
+        return self.variables_fixed(schema, defs, inputs)
+
+    def variables_fixed(self, schema, defs, inputs):
+        """(defs, inputs, VariableValues | errors | exception, operation text) for given definitions and inputs."""
+        from graphql import parse
+        from graphql.execution.values import get_variable_values
         src = "query (" + " ".join(f"${n}: {type_sdl(t)}" + (f" = {lit_text(d)}" if d is not None else "") for n, t, d in defs) + ") { __typename }" \
             if defs else "{ __typename }"
         op = parse(src).definitions[0]
@@ -926,7 +977,7 @@ class Runner:
             env = []
             if isinstance(vv, VariableValues):
                 for k, x in vv.coerced.items():
-                    sx = py_to_spec(x)
+                    sx = py_to_spec(unrename(x))
                     if sx is None:
                         env = None
                         break
@@ -963,7 +1014,7 @@ class Runner:
             def coerce(vvx):
                 try:
                     c = coerce_input_literal(node, ty, vvx)
-                    return ("invalid",) if c is Undefined else ("good", c)
+                    return ("invalid",) if c is Undefined else ("good", unrename(c))
                 except TypeError:
                     return ("crash",)
                 except Exception as e:  # noqa: BLE001
@@ -1005,8 +1056,8 @@ class Runner:
                                  dict(rep, relation="constant literal: coercion fails iff static validation reports", impl=[c0[0], stv[1]]))
                     continue
                 if c0[0] == "good" and not conforms(desc, t, c0[1]):
-                    ck.violation(rk, f"{type_sdl(t)} <- {lit_text(l)}: coerced result {c0[1]!r:.100} does not conform to the type",
-                                 dict(rep, relation="result conforms to the type", impl=repr(c0[1])[:300]))
+                    ck.violation(rk, f"{type_sdl(t)} <- {lit_text(l)}: coerced result {rp(c0[1], 100)} does not conform to the type",
+                                 dict(rep, relation="result conforms to the type", impl=rp(c0[1], 300)))
                     continue
                 # the validation rule on a document with this constant argument
                 if not getattr(self, "schema_valid", True):
@@ -1036,16 +1087,16 @@ class Runner:
                 g = (got[0], canon(py_to_spec(got[1]) or ["undef"])) if got[0] == "good" else got
                 w = (want[0], canon(want[1])) if want[0] == "good" else want
                 if g != w:
-                    ck.violation(rk, f"{type_sdl(t)} <- {lit_text(l)} [{name}, variables {short(env)}]: implementation {got!r:.100}, "
-                                     f"model {want!r:.100}",
-                                 dict(rep, relation=f"{name} impl = model", impl=repr(got)[:300], model=repr(want)[:300]))
+                    ck.violation(rk, f"{type_sdl(t)} <- {lit_text(l)} [{name}, variables {short(env)}]: implementation {rp(got, 100)}, "
+                                     f"model {rp(want, 100)}",
+                                 dict(rep, relation=f"{name} impl = model", impl=rp(got, 300), model=rp(want, 300)))
                     return False
                 return True
 
             def cmp_paths(name, got, want):
                 if pathset(got[1]) != pathset(want):
                     ck.violation(rk, f"{type_sdl(t)} <- {lit_text(l)} [{name}, variables {short(env)}]: error paths "
-                                     f"{sorted(pathset(got[1]))!r:.100}, model {sorted(pathset(want))!r:.100}",
+                                     f"{rp(sorted(pathset(got[1])), 100)}, model {rp(sorted(pathset(want)), 100)}",
                                  dict(rep, relation=f"{name} error paths impl = model", impl=got[1], model=want))
                     return False
                 return True
@@ -1067,7 +1118,7 @@ class Runner:
                     if res.errors:
                         got = ("error",)
                     elif len(got_args) == 1:
-                        a = got_args[0]
+                        a = unrename(got_args[0])
                         got = ("args", tuple(sorted((k, canon(py_to_spec(x) or ["undef"])) for k, x in a.items())))
                     else:
                         got = ("no-call",)
@@ -1085,9 +1136,9 @@ class Runner:
                 if got[0] != "unparsable":
                     ck.count("argument_via_execute")
                     if got != want:
-                        ck.violation(rk, f"execute {src} with {short(inputs)}: resolver arguments {got!r:.120}, model {want!r:.120}",
+                        ck.violation(rk, f"execute {src} with {short(inputs)}: resolver arguments {rp(got, 120)}, model {rp(want, 120)}",
                                      dict(rep, relation="argument handed to the resolver = coerced literal (impl = model)",
-                                          operation=src, inputs=inputs, impl=repr(got)[:300], model=repr(want)[:300]))
+                                          operation=src, inputs=inputs, impl=rp(got, 300), model=rp(want, 300)))
 
     # ---- variables
     def variable_cases(self, schema, desc, items):
@@ -1129,12 +1180,12 @@ class Runner:
                     ck.violation(rk, f"get_variable_values({src}) returns values without errors but drops ${missing[0]}",
                                  dict(rep, relation="no errors -> every provided or defaulted variable has a value"))
                     continue
-                bad = [n for n, t, d in defs if n in vv.coerced and not conforms(desc, t, vv.coerced[n])]
+                bad = [n for n, t, d in defs if n in vv.coerced and not conforms(desc, t, unrename(vv.coerced[n]))]
                 if bad:
-                    ck.violation(rk, f"get_variable_values({src}): ${bad[0]} = {vv.coerced[bad[0]]!r:.80} does not conform to its type",
+                    ck.violation(rk, f"get_variable_values({src}): ${bad[0]} = {rp(vv.coerced[bad[0]], 80)} does not conform to its type",
                                  dict(rep, relation="variable values conform to their types"))
                     continue
-                got = ("values", tuple(sorted((n, canon(py_to_spec(x) or ["undef"])) for n, x in vv.coerced.items())))
+                got = ("values", tuple(sorted((n, canon(py_to_spec(unrename(x)) or ["undef"])) for n, x in vv.coerced.items())))
             else:
                 if not vv:
                     ck.violation(rk, f"get_variable_values({src}) returns an empty error list", dict(rep, relation="errors or values"))
@@ -1154,8 +1205,8 @@ class Runner:
                 want = ("crash",)
             ck.count("variables:" + want[0])
             if got != want:
-                ck.violation(rk, f"get_variable_values({src}) with {short(inputs)}: implementation {got!r:.140}, model {want!r:.140}",
-                             dict(rep, relation="coerce_variable_values impl = model", impl=repr(got)[:400], model=repr(want)[:400]))
+                ck.violation(rk, f"get_variable_values({src}) with {short(inputs)}: implementation {rp(got, 140)}, model {rp(want, 140)}",
+                             dict(rep, relation="coerce_variable_values impl = model", impl=rp(got, 400), model=rp(want, 400)))
 
 
 def overflowing(l):
@@ -1184,7 +1235,7 @@ def run_schema(R, gen, desc, n_val, n_lit, n_var):
     from graphql import build_schema
     ck = R.ck
     try:
-        schema = build_schema(schema_sdl(desc))
+        schema = build_impl_schema(desc)
     except Exception as e:  # noqa: BLE001
         ck.count("skipped_out_of_fragment")
         ck.count("schema_build_failed:" + type(e).__name__)
@@ -1225,6 +1276,23 @@ def run_schema(R, gen, desc, n_val, n_lit, n_var):
         if l is None:
             continue
         lits.append((ai, l, defs, inputs, vv))
+    # every field of every OneOf type fed by a variable that is null / absent / defaulted to null / a valid value
+    for ai, t in enumerate(desc["args"]):
+        if t[0] != "n":
+            continue
+        for iname, oneof, fields in desc["inputs"]:
+            if iname != t[1] or not oneof:
+                continue
+            for fn, ft, _ in fields:
+                base = ft[1] if ft[0] == "nn" else ft
+                good = gen.value(desc, ["nn", base], 2, valid=True)
+                for defs, inputs in (([["a", base, None]], [[cps("a"), ["none"]]]),
+                                     ([["a", base, None]], []),
+                                     ([["a", base, ["null"]]], []),
+                                     ([["a", base, None]], [[cps("a"), good]])):
+                    _, _, vv, _ = R.variables_fixed(schema, defs, inputs)
+                    lits.append((ai, ["object", [[fn, ["var", "a"]]]], defs, inputs, vv))
+                    ck.count("oneof_member_from_variable")
     R.literal_cases(schema, desc, lits)
     R.variable_cases(schema, desc, vars_items)
 
@@ -1249,7 +1317,8 @@ FIXED_SCHEMAS = [
                                ["c", ["n", "I0"], None], ["d", ["nn", ["n", "String"]], None]]],
                 ["I1", True, [["x", ["n", "Int"], None], ["y", ["n", "I0"], None], ["z", ["l", ["n", "Float"]], None]]]],
      "args": [["n", "I0"], ["n", "I1"], ["nn", ["l", ["nn", ["n", "I1"]]]], ["n", "Float"], ["l", ["l", ["n", "Int"]]],
-              ["nn", ["n", "E0"]], ["n", "ID"], ["l", ["n", "I0"]]]},
+              ["nn", ["n", "E0"]], ["n", "ID"], ["l", ["n", "I0"]]],
+     "out": [["I0", "a"], ["I0", "c"], ["I1", "x"], ["I1", "y"]]},
 ]
 
 
@@ -1291,14 +1360,14 @@ def replay_dict(R, d):
     from graphql import build_schema, parse
     from graphql.execution.values import get_variable_values
     desc = d["schema"]
-    schema = build_schema(schema_sdl(desc))
+    schema = build_impl_schema(desc)
     if "value" in d:
         R.value_cases(schema, desc, [(d["type"], d["value"])])
     elif "lit" in d:
         t = d["type"]
         if t not in desc["args"]:
             desc["args"].append(t)
-            schema = build_schema(schema_sdl(desc))
+            schema = build_impl_schema(desc)
         env = d.get("env") or []
         vv = None
         if env is not None:
